@@ -168,6 +168,22 @@ class CallbackFault(Exception):
     """raised by the harness's own completion callback (the application's fault, not the handler's)"""
 
 
+def peer_label(a):
+    return f"{a[0]}:{a[1]}"
+
+
+def steps_by_peer(step, peers):
+    """the handler's step dictionary read per PEER (ip, port) - the statement's unit ('never changes another peer's step'). A
+    handler that keeps one step per ip shows it for every peer of that ip, and so shows one peer moving another."""
+    out = {}
+    for p in sorted(peers):
+        if tuple(p) in step:
+            out[peer_label(p)] = int(step[tuple(p)])
+        elif p[0] in step:
+            out[peer_label(p)] = int(step[p[0]])
+    return out
+
+
 class RDACSut:
     def __init__(self, rng, raising=False):
         from okdmr.dmrlib.protocols.hytera.rdac_datagram_protocol import RDACDatagramProtocol
@@ -184,8 +200,10 @@ class RDACSut:
         self.h = RDACDatagramProtocol(storage=self.st, callback=callback)
         self.tr = FakeTransport()
         self.h.connection_made(self.tr)
+        self.peers = set()
 
     def event(self, addr, d):
+        self.peers.add(tuple(addr))
         self.tr.sent.clear()
         self.done.clear()
         outcome = "ok"
@@ -196,8 +214,8 @@ class RDACSut:
         except Exception:  # noqa
             outcome = "raise"
         rpt = self.st.match_incoming(tuple(addr))
-        return {"ip": addr[0], "d": d,
-                "out": {"st": {k: int(v) for k, v in self.h.step.items()}, "nsent": len(self.tr.sent),
+        return {"ip": peer_label(addr), "d": d,
+                "out": {"st": steps_by_peer(self.h.step, self.peers), "nsent": len(self.tr.sent), "lens": [len(x[0]) for x in self.tr.sent],
                         "done": len(self.done), "doneIsPeer": bool(self.done) and rpt is not None and all(x == rpt.id for x in self.done),
                         "out": outcome}}
 
@@ -265,6 +283,8 @@ class StartupSut:
                 "out": {"sent": sent, "out": outcome, "recs": self.project()}}
 
     def rdac(self, src, d):
+        self.rpeers = getattr(self, "rpeers", set())
+        self.rpeers.add(tuple(src))
         self.rtr.sent.clear()
         self.done.clear()
         outcome = "ok"
@@ -273,8 +293,8 @@ class StartupSut:
         except Exception:  # noqa
             outcome = "raise"
         rpt = self.st.match_incoming(tuple(src))
-        return {"h": "rdac", "ip": src[0], "src": addr_rec(src), "d": d, "recs": self.project(),
-                "out": {"st": {k: int(v) for k, v in self.r.step.items()}, "nsent": len(self.rtr.sent), "done": len(self.done),
+        return {"h": "rdac", "ip": peer_label(src), "src": addr_rec(src), "d": d, "recs": self.project(),
+                "out": {"st": steps_by_peer(self.r.step, self.rpeers), "nsent": len(self.rtr.sent), "done": len(self.done),
                         "doneIsPeer": bool(self.done) and rpt is not None and all(x == rpt.id for x in self.done), "out": outcome}}
 
 
@@ -389,7 +409,7 @@ def rdac_inloop_run(seed):
             except Exception as ex:  # noqa
                 raised.append(type(ex).__name__)
     asyncio.run(main())
-    return {"step": int(h.step.get("ip1", 0)), "done": len(done), "raised": "+".join(raised) or "nothing"}
+    return {"step": steps_by_peer(h.step, [("ip1", RDAC_PORT)]).get(peer_label(("ip1", RDAC_PORT)), 0), "done": len(done), "raised": "+".join(raised) or "nothing"}
 
 
 def rdacloop_phase(ctx):
@@ -425,8 +445,8 @@ def rdacloop_phase(ctx):
         t["seed"], t["steps"] = j
         last = t["ev"][-1]["out"]
         ctx.count("loop" + core.digest(v["hist"]), len(v["hist"]))
-        if last["st"].get("ip1", 0) != v["step"] or sum(e["out"]["done"] for e in t["ev"]) != v["done"]:
-            ctx.model_drift(f"RDAC closed loop: after {len(v['hist'])} datagrams the handler is at step {last['st'].get('ip1', 0)}, the model at {v['step']}")
+        if last["st"].get(peer_label(addr), 0) != v["step"] or sum(e["out"]["done"] for e in t["ev"]) != v["done"]:
+            ctx.model_drift(f"RDAC closed loop: after {len(v['hist'])} datagrams the handler is at step {last['st'].get(peer_label(addr), 0)}, the model at {v['step']}")
         if v["step"] != 14:
             stalled += 1
     ctx.note("rdac_closed_loop", {"behaviours": len(runs), "stalled": stalled, "budgets_lose_swap_dup": list(b)})
@@ -674,7 +694,8 @@ def run(ctx):
     ctx.sample({"rdac_edge_replay_tail": traces[len(traces) // 2]["ev"][-2:]})
     for part in core.chunks(traces, 1000):
         judge(ctx, part, ctx.validate_traces("Trace_RDAC", "Trace_RDAC.cfg", part), "edge replay", "rdac")
-    # random RDAC histories: several peers progressing, with resets, wrong responses, same IP from two ports
+    # random RDAC histories: several peers progressing, with resets, wrong responses; two peers behind each IP (different ports) are
+    # two peers: each follows its own script, and a reset or response of one must not move the other
     peers = [("10.2.0.%d" % (i // 2 + 1), 50002 + i % 2) for i in range(6)]
     n, ln = (200, 80) if ctx.quick else (3000, 150)
     jobs = []
@@ -682,27 +703,27 @@ def run(ctx):
         steps, prog = [], {}
         for _ in range(ctx.rng.randrange(5, ln)):
             a = ctx.rng.choice(peers)
-            s = prog.get(a[0], 0)
+            s = prog.get(a, 0)
             r = ctx.rng.random()
             if r < 0.08:
                 d = {"cls": "reset", "k": "none", "long": False, "zero": ctx.rng.random() < 0.5}
-                prog[a[0]] = 1 if s != 14 else 14
+                prog[a] = 1 if s != 14 else 14
             elif r < 0.75 and s in EXPECTED:
                 d = {"cls": "resp", "k": EXPECTED[s], "long": ctx.rng.random() < 0.9, "zero": False}
                 if d["long"] and ctx.rng.random() < 0.12:
                     d["badtext"] = True
                 if not (s == 10 and not d["long"]) and not (s == 6 and d.get("badtext")):
-                    prog[a[0]] = 10 if s == 8 else s + 1
+                    prog[a] = 10 if s == 8 else s + 1
             elif r < 0.9:
                 d = {"cls": "resp", "k": ctx.rng.choice(["FD", "10", "00", "FA"]), "long": ctx.rng.random() < 0.5, "zero": False}
                 if s == 0:
-                    prog[a[0]] = 1
+                    prog[a] = 1
                 elif s in EXPECTED and EXPECTED[s] == d["k"] and not (s == 10 and not d["long"]):
-                    prog[a[0]] = 10 if s == 8 else s + 1
+                    prog[a] = 10 if s == 8 else s + 1
             else:
                 d = {"cls": "other", "k": "none", "long": False, "zero": False}
                 if s == 0:
-                    prog[a[0]] = 1
+                    prog[a] = 1
             steps.append((a, d))
         jobs.append((ctx.seed * 23 + i, steps))
     with Pool(core.NCPU) as pool:
@@ -713,6 +734,12 @@ def run(ctx):
             ctx.count(core.digest(["rdac", e["d"], e["out"]["st"].get(e["ip"]), e["out"]["done"]]))
     for part in core.chunks(hist, 300):
         judge(ctx, part, ctx.validate_traces("Trace_RDAC", "Trace_RDAC.cfg", part), "random history", "rdac")
+    # what a finished peer's "no data" octet (one-byte 0x00 at step 14) is answered with: the statement says nothing about it
+    odd = [e["out"]["lens"] for t in hist for k, e in enumerate(t["ev"]) if e["d"]["cls"] == "reset" and e["d"]["zero"] and e["out"]["nsent"] == 1
+           and k > 0 and e["out"]["st"].get(e["ip"]) == 14 and t["ev"][k - 1]["out"]["st"].get(e["ip"]) == 14 and e["out"]["lens"] != [1]]
+    if odd:
+        ctx.outside(f"RDAC: the 'no data available' octet of a peer whose identification is complete is answered with a datagram of {odd[0][0]} octets, "
+                    f"not with one octet ({len(odd)} observations)")
     bad = sum(1 for t in hist for e in t["ev"] if e["d"].get("badtext") and e["out"]["out"] == "raise")
     if bad:
         ctx.outside("RDAC step 6 decodes four UTF-16 text fields of the repeater's response (firmware, call sign, hardware, serial number): a response "
